@@ -575,6 +575,12 @@ func (fr *frame) returnSiteAsserts(x *ssa.Return, st *State, reach string) {
 			}
 		}
 		sargs := append([]*Val{}, fr.params...)
+		// extra parameters `(r0 T0, r1 T1)` name the values being returned here
+		if need := len(cl.Fn.Params) - len(sargs) - len(cl.VarNames); need > 0 && need <= len(x.Results) {
+			for i := 0; i < need; i++ {
+				sargs = append(sargs, fr.valOf(x.Results[i]))
+			}
+		}
 		ok := true
 		for _, ln := range cl.VarLocal {
 			lv := fr.localNamed(ln, x, st)
